@@ -23,6 +23,10 @@ def plan(tier):
                       crash_set=[1, 2, 3], own_first=False, useful_only=True, torn=True), n, 120),
               (tm.Cfg('sim-crash-n3', [1, 1, 2], [1], max_round=2, max_height=2, nbyz=1, budget=2, crashes=6,
                       crash_set=[2, 3], own_first=False, useful_only=True, torn=True), n, 120)]
+    # an honest validator leaves the set at height 2: restarts there must rebuild LastCommit against the PREVIOUS validator set
+    p.sims.append((tm.Cfg('sim-crash-n5-remove', [1, 1, 1, 1, 1], [5], max_round=1, max_height=2, nbyz=1, budget=2, crashes=3,
+                          crash_set=[1, 2, 4], own_first=False, useful_only=True, sync=True, torn=True,
+                          next_power={2: [1, 1, 0, 1, 1]}), n, 160))
     p.probe_real_start = 1 if quick else 2
     p.env = {'VERIF_ORACLE_RESTORE': '1'}
     p.rule_extra = ('Crash points are every position of the behaviour; torn records are cut at a position derived from the '
